@@ -2,6 +2,7 @@ import SpoxModel.Lemmas.Scope
 import SpoxModel.Lemmas.Named
 import SpoxModel.Lemmas.BuildIR
 import SpoxModel.Lemmas.InlineCheck
+import SpoxModel.Lemmas.Func
 import SpoxModel.Model.InternalReq
 import SpoxModel.Generated.IdentityTypes
 import SpoxModel.Model.Naming
@@ -348,6 +349,42 @@ theorem inline_rank_or_const_mismatch_refused (tbl : DtypeTable) (e e' : Nat) (a
     · exact absurd h.2.1 hb
     · exact absurd (h.2.2 j n m h1 h2) hne
 
+/-! ### One declared opset per domain, whatever the spelling (`max_opset_policy`)
+
+`Func.policy` is `max_opset_policy` (`_schemas.py`): requirements are collected per canonical domain
+(`"ai.onnx"` = `""`) and the maximum is taken. Tie H: the real function on random requirement sets that spell
+the default domain both ways, with duplicates, in any order, every run. -/
+
+open Func in
+/-- **The declared version of a domain meets EVERY requirement on it, under either spelling of the default
+    domain, whatever the order and multiplicity of the requirements** (an inlined model importing `"ai.onnx"` at
+    a lower version than the rest of the program cannot pull the model's opset down). -/
+theorem model_opset_covers_both_spellings (req : List (String × Nat)) (p : String × Nat) (hp : p ∈ req) :
+    ∃ v, getV (policy req) (norm p.1) = some v ∧ p.2 ≤ v :=
+  fold_ge req [] p hp
+
+open Func in
+/-- …is one that was asked for (the maximum is attained, nothing is invented)… -/
+theorem model_opset_attained (req : List (String × Nat)) (d : String) (v : Nat)
+    (h : getV (policy req) d = some v) : ∃ p ∈ req, norm p.1 = d ∧ p.2 = v := by
+  rcases fold_attained req [] d v h with h0 | h1
+  · simp [getV] at h0
+  · exact h1
+
+open Func in
+/-- …and the result has one entry per canonical domain: no key is spelled `"ai.onnx"`, no key occurs twice. -/
+theorem model_opset_one_entry_per_domain (req : List (String × Nat)) :
+    ((policy req).map (·.1)).Nodup ∧ "ai.onnx" ∉ (policy req).map (·.1) := by
+  have h := policy_kinv req
+  refine ⟨h.nodup, fun hm => ?_⟩
+  have := h.normed "ai.onnx" hm
+  simp [norm] at this
+
+open Func in
+example : getV (policy [("", 17), ("ai.onnx", 12), ("", 14)]) "" = some 17 ∧
+    getV (policy [("ai.onnx", 12), ("", 17)]) "" = some 17 ∧
+    getV (policy [("ai.onnx", 19), ("", 17), ("ai.onnx.ml", 3)]) "" = some 19 := by decide
+
 /-! ### spox's own Identity nodes are valid at the model's opset (`_Introduce.opset_req`)
 
 `InternalReq.introReq` is the requirement of the internal forwarding operator (tie H: the real `opset_req` of
@@ -418,6 +455,12 @@ example : checkStructural (.mk ["x"] [] [.mk "a" ["y"] ["z"] [], .mk "b" ["x"] [
 open Named in
 example : checkStructural (.mk ["x"] [] [.mk "a" ["x"] ["y"] [], .mk "a" ["y"] ["z"] []] ["z"]) = false := by decide
 -- deleting the checker call, or checking a different variable, is not a safe shape
+open Named in
+-- a body-local value of a Loop body leaked to a SIBLING If branch (use without a visible definition): rejected
+example : checkStructural (.mk ["x", "c"] []
+    [.mk "Loop_0" ["x"] ["l"] [.mk ["i", "cnd", "s"] [] [.mk "Add_0" ["s", "x"] ["t"] []] ["cnd", "t"]],
+     .mk "If_0" ["c"] ["r"] [.mk [] [] [.mk "Add_1" ["s", "l"] ["u"] []] ["u"], .mk [] [] [] ["l"]]] ["r"]) = false := by
+  decide
 open BuildIR in
 example : safeBody false [.assign 0, .ret (some 0)] = false := by decide
 open BuildIR in
